@@ -1,10 +1,23 @@
-import TracklibVerif.Model.ObsTime
+import TracklibVerif.Model.ObsTimeG
 import TracklibVerif.Gen.ObsTime
-/-! Tie for C03: `ObsTime.isLeapYear` translated from the CURRENT `tracklib/core/obs_time.py` equals the model's
-`TV.ObsTime.isLeap` on every non-negative year (the model's years are `Nat`; Python's `%` is the floor modulo,
-`Int.fmod`). -/
+/-! Tie for C03: the functions of `tracklib/core/obs_time.py` translated from the CURRENT source (tools/py2lean.py →
+`Gen/ObsTime.lean`) against the hand-written models.
+
+* `tie_isLeapYear`  — `ObsTime.isLeapYear(year)` = `ObsTime.isLeap` on every year ≥ 0 (Python's `%` is `Int.fmod`).
+* `tie_toAbsTime`   — `ObsTime.toAbsTime` (two `for` loops over `range`, table lookup `__day_per_month[m - 1]`, the integer
+  accumulator `seconds`, the final float operation) = `ObsTimeG.toAbsG`, on every stamp with `month ≤ 13`;
+  `tie_toAbsTime_index`: for `month ≥ 14` the code raises `IndexError`; `tie_toAbsTime_total`: both, against `ObsTimeG.toAbsGE`.
+* `tie_readUnixTime_modelFuel`, `tie_readUnixTime` — `ObsTime.readUnixTime` on a float (the `while True` year loop with
+  `break`, the `for i in range(12)` month loop with `break`, the five truncations) = `ObsTimeG.readUnixG`: with the model's
+  own fuel the two agree including "out of fuel", and for EVERY larger fuel the translated function returns the model's stamp.
+  An `ObsTime` is the tuple of its attributes in constructor order `(year, month, day, hour, min, sec, ms, zone)`.
+
+The loop lemmas (`yearLoop_tie`, `monthLoop_tie`) are stated for an arbitrary body satisfying a pointwise equation; the
+equation is then proved of the generated body, so nothing of the generated text is copied here. -/
 namespace TV.Tie.C03
 open TV TV.Py
+set_option linter.unusedSectionVars false
+set_option linter.unusedSimpArgs false
 
 theorem fmod_natCast (n k : Nat) : Int.fmod (n : Int) (k : Int) = ((n % k : Nat) : Int) := by
   rw [Int.fmod_eq_emod_of_nonneg _ (Int.natCast_nonneg k)]
@@ -26,4 +39,324 @@ theorem tie_isLeapYear (y : Nat) : Gen.ObsTime.isLeapYear (y : Int) = .ok (ObsTi
   rw [show (4 : Int) = ((4 : Nat) : Int) from rfl, show (100 : Int) = ((100 : Nat) : Int) from rfl, show (400 : Int) = ((400 : Nat) : Int) from rfl, h4, h100, h400, dec_eq, dec_eq, dec_eq]
   rfl
 
+/-- the year loop of `toAbsTime` as a fold -/
+theorem years_fold (k : Nat) (s : Int) :
+    (Py.range 1970 (1970 + (k : Int))).foldl (fun (t : Int) (y : Int) => t + 86400 * 365 + (if ObsTime.isLeap y.toNat then 86400 else 0)) s
+      = s + (ObsTime.daysBeforeYear k : Int) * 86400 := by
+  induction k generalizing s with
+  | zero => simp [Py.range_empty, ObsTime.daysBeforeYear]
+  | succ k ih =>
+    have : (1970 : Int) + ((k + 1 : Nat) : Int) = (1970 + (k : Int)) + 1 := by omega
+    rw [this, Py.range_snoc (by omega), List.foldl_append, ih]
+    simp only [List.foldl_cons, List.foldl_nil, ObsTime.daysBeforeYear, ObsTime.yearDays]
+    have h2 : (1970 + (k : Int)).toNat = 1970 + k := by omega
+    rw [h2]
+    by_cases hl : ObsTime.isLeap (1970 + k) = true
+    · simp only [hl, if_true]; omega
+    · simp only [hl]; simp; omega
+
+theorem months_fold (y : Nat) (k : Nat) (s : Int) :
+    (Py.range 1 (1 + (k : Int))).foldl (fun (t : Int) (m : Int) => t + (ObsTime.monthDays y (m - 1).toNat : Int) * 86400) s
+      = s + (ObsTime.daysBeforeMonth y k : Int) * 86400 := by
+  induction k generalizing s with
+  | zero => simp [Py.range_empty, ObsTime.daysBeforeMonth]
+  | succ k ih =>
+    have : (1 : Int) + ((k + 1 : Nat) : Int) = (1 + (k : Int)) + 1 := by omega
+    rw [this, Py.range_snoc (by omega), List.foldl_append, ih]
+    simp only [List.foldl_cons, List.foldl_nil, ObsTime.daysBeforeMonth]
+    have h2 : (1 + (k : Int) - 1).toNat = k := by omega
+    rw [h2]; omega
+
+theorem years_fold' (y : Nat) (s : Int) :
+    (Py.range 1970 (y : Int)).foldl (fun (t : Int) (y : Int) => t + 86400 * 365 + (if ObsTime.isLeap y.toNat then 86400 else 0)) s
+      = s + (ObsTime.daysBeforeYear (y - 1970) : Int) * 86400 := by
+  by_cases h : 1970 ≤ y
+  · have : (y : Int) = 1970 + ((y - 1970 : Nat) : Int) := by omega
+    rw [this, years_fold]
+  · have h0 : y - 1970 = 0 := by omega
+    rw [Py.range_empty (by omega), h0]; simp [ObsTime.daysBeforeYear]
+
+theorem months_fold' (y m : Nat) (s : Int) :
+    (Py.range 1 (m : Int)).foldl (fun (t : Int) (m : Int) => t + (ObsTime.monthDays y (m - 1).toNat : Int) * 86400) s
+      = s + (ObsTime.daysBeforeMonth y (m - 1) : Int) * 86400 := by
+  by_cases h : 1 ≤ m
+  · have : (m : Int) = 1 + ((m - 1 : Nat) : Int) := by omega
+    rw [this, months_fold]
+  · have h0 : m - 1 = 0 := by omega
+    rw [Py.range_empty (by omega), h0]; simp [ObsTime.daysBeforeMonth]
+
+theorem yd_cast (y : Nat) : ((ObsTime.yearDays y * 86400 : Nat) : Int) = if ObsTime.isLeap y then 86400 * 365 + 86400 else 86400 * 365 := by
+  unfold ObsTime.yearDays; split <;> rfl
+
+section
+variable {α : Type} [Add α] [Sub α] [Mul α] [Div α] [LT α] [DecidableLT α] [IntCast α] [OfScientific α]
+
+theorem dpm_idx (y : Nat) (m : Int) (h1 : 1 ≤ m) (h2 : m ≤ 12) :
+    Py.getIdx [(31 : Int), 28, 31, 30, 31, 30, 31, 31, 30, 31, 30, 31] (m - 1) = .ok (if m = 2 then 28 else (ObsTime.monthDays y (m - 1).toNat : Int)) := by
+  have : m = 1 ∨ m = 2 ∨ m = 3 ∨ m = 4 ∨ m = 5 ∨ m = 6 ∨ m = 7 ∨ m = 8 ∨ m = 9 ∨ m = 10 ∨ m = 11 ∨ m = 12 := by omega
+  rcases this with h | h | h | h | h | h | h | h | h | h | h | h <;> subst h <;> rfl
+
+theorem tie_toAbsTime (t : ObsTime.StampZ) (hm : t.month ≤ 13)
+    (h1000 : (1000.0 : α) = ((1000 : Int) : α)) :
+    Gen.ObsTime.ObsTime_toAbsTime (α := α) (t.year : Int) (t.month : Int) t.day t.hour t.min t.sec t.ms
+      = .ok (ObsTime.toAbsG t) := by
+  unfold Gen.ObsTime.ObsTime_toAbsTime
+  simp only []
+  rw [Py.forList_eq_foldl _ (fun (t : Int) (y : Int) => t + 86400 * 365 + (if ObsTime.isLeap y.toNat then 86400 else 0))]
+  · simp only [Py.bind_ok]
+    rw [Py.forList_eq_foldl _ (fun (s : Int) (m : Int) => s + (ObsTime.monthDays t.year (m - 1).toNat : Int) * 86400)]
+    · simp only [Py.bind_ok]
+      rw [years_fold', months_fold', h1000]
+      have key : ∀ a b c d e f : Int, 0 + a * 86400 + b * 86400 + c + d + e + f = (a + b) * 86400 + c + d + e + f := by
+        intros; omega
+      rw [key]
+      simp only [ObsTime.toAbsG, ObsTime.secondsZ, Int.natCast_add]
+    · intro m hm' s
+      have hr := Py.mem_range hm'
+      rw [dpm_idx t.year m (by omega) (by omega), tie_isLeapYear]
+      simp only [Py.bind_ok]
+      by_cases h2 : m = 2
+      · subst h2
+        by_cases hl : ObsTime.isLeap t.year = true
+        · simp [hl, ObsTime.monthDays]; omega
+        · simp [hl, ObsTime.monthDays]
+      · simp [h2]
+  · intro y hy s
+    have hr := Py.mem_range hy
+    have : y = ((y.toNat : Nat) : Int) := by omega
+    rw [this, tie_isLeapYear]
+    simp only [Py.bind_ok, Int.toNat_natCast]
+    by_cases hl : ObsTime.isLeap y.toNat = true
+    · simp [hl]
+    · simp [hl]
+
+/-- error correspondence for `toAbsTime`: the model's `toAbsG` is total (a month beyond the table counts 31 days), the
+code reads `__day_per_month[m - 1]` for `m` up to `month - 1` and raises `IndexError` as soon as `month ≥ 14` -/
+theorem tie_toAbsTime_index (t : ObsTime.StampZ) (hm : 14 ≤ t.month) :
+    Gen.ObsTime.ObsTime_toAbsTime (α := α) (t.year : Int) (t.month : Int) t.day t.hour t.min t.sec t.ms
+      = .error .index := by
+  unfold Gen.ObsTime.ObsTime_toAbsTime
+  simp only []
+  rw [Py.forList_eq_foldl _ (fun (t : Int) (y : Int) => t + 86400 * 365 + (if ObsTime.isLeap y.toNat then 86400 else 0))]
+  · simp only [Py.bind_ok]
+    rw [Py.range_append (a := 1) (b := 13) (c := (t.month : Int)) (by omega) (by omega),
+      Py.forList_append _ _ _ _ _ (Py.forList_eq_foldl _ (fun (s : Int) (m : Int) => s + (ObsTime.monthDays t.year (m - 1).toNat : Int) * 86400) _ _ ?h1) ?h2,
+      Py.range_cons (by omega)]
+    · rfl
+    case h1 =>
+      intro m hm' s
+      have hr := Py.mem_range hm'
+      rw [dpm_idx t.year m (by omega) (by omega), tie_isLeapYear]
+      simp only [Py.bind_ok]
+      by_cases h2 : m = 2
+      · subst h2
+        by_cases hl : ObsTime.isLeap t.year = true
+        · simp [hl, ObsTime.monthDays]; omega
+        · simp [hl, ObsTime.monthDays]
+      · simp [h2]
+    case h2 =>
+      intro m hm' s s'
+      have hr := Py.mem_range hm'
+      rw [dpm_idx t.year m (by omega) (by omega), tie_isLeapYear]
+      simp only [Py.bind_ok]
+      by_cases h2 : m = 2 <;> by_cases hl : ObsTime.isLeap t.year = true <;> simp [h2, hl]
+  · intro y hy s
+    have hr := Py.mem_range hy
+    have : y = ((y.toNat : Nat) : Int) := by omega
+    rw [this, tie_isLeapYear]
+    simp only [Py.bind_ok, Int.toNat_natCast]
+    by_cases hl : ObsTime.isLeap y.toNat = true
+    · simp [hl]
+    · simp [hl]
+
+/-- **`ObsTime.toAbsTime`, all stamps**: the translation of the CURRENT source returns the model's value where the model has one and
+raises `IndexError` exactly where the model's `toAbsGE` is `none` (month ≥ 14) -/
+theorem tie_toAbsTime_total (t : ObsTime.StampZ) (h1000 : (1000.0 : α) = ((1000 : Int) : α)) :
+    Gen.ObsTime.ObsTime_toAbsTime (α := α) (t.year : Int) (t.month : Int) t.day t.hour t.min t.sec t.ms
+      = match ObsTime.toAbsGE t with
+        | some v => .ok v
+        | none => .error .index := by
+  unfold ObsTime.toAbsGE
+  by_cases hm : t.month ≤ 13
+  · rw [if_pos hm]; exact tie_toAbsTime t hm h1000
+  · rw [if_neg hm]; exact tie_toAbsTime_index t (by omega)
+
+/-- the `while True` year loop of `readUnixTime` against `yearLoopG`: same fuel, same result, "out of fuel" for `none` -/
+theorem yearLoop_tie {ρ : Type} (e : α) (body : Int × Int → Py.M (Py.Ctl (Int × Int) ρ))
+    (h : ∀ (y sec : Nat), body ((sec : Int), (y : Int)) =
+      if e - (((sec : Nat) : Int) : α) < (((ObsTime.yearDays y * 86400 : Nat) : Int) : α) then .ok (.brk ((sec : Int), (y : Int)))
+      else .ok (.cont (((sec + ObsTime.yearDays y * 86400 : Nat) : Int), ((y + 1 : Nat) : Int))))
+    (f y sec : Nat) :
+    Py.whileLoop body f ((sec : Int), (y : Int)) =
+      match ObsTime.yearLoopG e f y sec with
+      | some r => .ok (.done ((r.2 : Int), (r.1 : Int)))
+      | none => .error .fuel := by
+  induction f generalizing y sec with
+  | zero => rfl
+  | succ f ih =>
+    rw [Py.whileLoop_succ, h, ObsTime.yearLoopG]
+    by_cases hc : e - (((sec : Nat) : Int) : α) < (((ObsTime.yearDays y * 86400 : Nat) : Int) : α)
+    · simp only [hc, if_true]
+    · simp only [hc, if_false]; exact ih _ _
+
+/-- the `for i in range(12)` month loop of `readUnixTime` against `monthLoopG` -/
+theorem monthLoop_tie {ρ : Type} (y : Nat) (body : Int → α × Int → Py.M (Py.Ctl (α × Int) ρ))
+    (h : ∀ (i : Int) (e : α) (m : Nat), m < 12 → body i (e, (m : Int)) =
+      if e < (((ObsTime.monthDays y m * 86400 : Nat) : Int) : α) then .ok (.brk (e, (m : Int)))
+      else .ok (.cont (e - (((ObsTime.monthDays y m * 86400 : Nat) : Int) : α), ((m + 1 : Nat) : Int))))
+    (f m : Nat) (e : α) (hf : m + f ≤ 12) (i0 : Int) :
+    Py.forList body (Py.range i0 (i0 + (f : Int))) (e, (m : Int)) =
+      .ok (.done ((ObsTime.monthLoopG y f m e).2, ((ObsTime.monthLoopG y f m e).1 : Int))) := by
+  induction f generalizing m e i0 with
+  | zero => rw [Py.range_empty (by omega)]; rfl
+  | succ f ih =>
+    rw [Py.range_cons (by omega), Py.forList_cons, h _ _ _ (by omega), ObsTime.monthLoopG]
+    by_cases hc : e < (((ObsTime.monthDays y m * 86400 : Nat) : Int) : α)
+    · simp only [hc, if_true]
+    · simp only [hc, if_false]
+      have : i0 + ((f + 1 : Nat) : Int) = (i0 + 1) + (f : Int) := by omega
+      rw [this]
+      exact ih (m + 1) _ (by omega) (i0 + 1)
+
+theorem dpm_idx0 (m : Nat) (h : m < 12) :
+    Py.getIdx [(31 : Int), 28, 31, 30, 31, 30, 31, 31, 30, 31, 30, 31] (m : Int) = .ok ((ObsTime.monthDays 1 m : Nat) : Int) := by
+  have : m = 0 ∨ m = 1 ∨ m = 2 ∨ m = 3 ∨ m = 4 ∨ m = 5 ∨ m = 6 ∨ m = 7 ∨ m = 8 ∨ m = 9 ∨ m = 10 ∨ m = 11 := by omega
+  rcases this with h | h | h | h | h | h | h | h | h | h | h | h <;> subst h <;> rfl
+
+theorem som_cast (y m : Nat) (h : m < 12) :
+    ((ObsTime.monthDays y m * 86400 : Nat) : Int) =
+      if m = 1 ∧ ObsTime.isLeap y = true then ((ObsTime.monthDays 1 m : Nat) : Int) * 86400 + 86400 else ((ObsTime.monthDays 1 m : Nat) : Int) * 86400 := by
+  by_cases h1 : m = 1
+  · subst h1
+    by_cases hl : ObsTime.isLeap y = true
+    · simp only [ObsTime.monthDays, hl, if_true, true_and]; rfl
+    · simp only [ObsTime.monthDays, hl, and_false, if_false]; rfl
+  · have : ObsTime.monthDays y m = ObsTime.monthDays 1 m := by
+      unfold ObsTime.monthDays; split <;> first | rfl | omega
+    rw [this, if_neg (by simp [h1]), Int.natCast_mul]; rfl
+
+theorem monthDays_ne1 (y m : Nat) (h : m ≠ 1) : ObsTime.monthDays y m = ObsTime.monthDays 1 m := by
+  unfold ObsTime.monthDays; split <;> first | rfl | omega
+theorem monthDays_feb (y : Nat) : ObsTime.monthDays y 1 = if ObsTime.isLeap y then 29 else 28 := rfl
+
+
+/-- an `ObsTime` as the tuple of its attributes in constructor order (year, month, day, hour, min, sec, ms, zone) -/
+def stampTuple (t : ObsTime.StampZ) : Int × Int × Int × Int × Int × Int × Int × Int :=
+  ((t.year : Int), (t.month : Int), t.day, t.hour, t.min, t.sec, t.ms, 0)
+
+variable [OfNat α 60] [OfNat α 1000] [OfNat α 3600] [OfNat α 86400]
+
+/-- `readUnixG` after its year loop (the text of `Model/ObsTimeG.lean`; `readUnixG_eq` checks it is) -/
+def restG (trunc : α → Int) (e0 : α) (y sec : Nat) : ObsTime.StampZ :=
+    let e1 := e0 - (((sec : Nat) : Int) : α)
+    let (m, e2) := ObsTime.monthLoopG y 12 0 e1
+    let day : Int := trunc (e2 / ((86400 : Int) : α)) + 1
+    let e3 := e2 - (((day - 1) * 86400 : Int) : α)
+    let hour : Int := trunc (e3 / ((3600 : Int) : α))
+    let e4 := e3 - ((hour * 3600 : Int) : α)
+    let mn : Int := trunc (e4 / ((60 : Int) : α))
+    let e5 := e4 - ((mn * 60 : Int) : α)
+    let sc : Int := trunc e5
+    let e6 := e5 - ((sc : Int) : α)
+    let ms : Int := trunc (e6 * ((1000 : Int) : α))
+    ⟨y, m + 1, day, hour, mn, sc, ms⟩
+
+theorem readUnixG_eq (trunc : α → Int) (e0 : α) :
+    ObsTime.readUnixG trunc e0 =
+      match ObsTime.yearLoopG e0 ((trunc (e0 / ((31536000 : Int) : α))).toNat + 1) 1970 0 with
+      | none => none
+      | some r => some (restG trunc e0 r.1 r.2) := by
+  unfold ObsTime.readUnixG restG
+  cases ObsTime.yearLoopG e0 ((trunc (e0 / ((31536000 : Int) : α))).toNat + 1) 1970 0 with
+  | none => rfl
+  | some r => rfl
+
+theorem readUnix_core (trunc : α → Int) (e0 : α) (fuel : Nat)
+    (h60 : (60 : α) = ((60 : Int) : α)) (h1000 : (1000 : α) = ((1000 : Int) : α))
+    (h3600 : (3600 : α) = ((3600 : Int) : α)) (h86400 : (86400 : α) = ((86400 : Int) : α)) :
+    Gen.ObsTime.ObsTime_readUnixTime trunc fuel e0 =
+      match ObsTime.yearLoopG e0 fuel 1970 0 with
+      | none => .error .fuel
+      | some r => .ok (stampTuple (restG trunc e0 r.1 r.2)) := by
+  unfold Gen.ObsTime.ObsTime_readUnixTime
+  simp only []
+  have hy : ∀ body : Int × Int → Py.M (Py.Ctl (Int × Int) (Int × Int × Int × Int × Int × Int × Int × Int)), _ →
+      Py.whileLoop body fuel (0, 1970) = _ := fun body h => yearLoop_tie e0 body h fuel 1970 0
+  rw [hy _ ?spec]
+  case spec =>
+    intro y sec
+    simp only [tie_isLeapYear, Py.bind_ok, Int.natCast_add, yd_cast, Int.natCast_one]
+    by_cases hl : ObsTime.isLeap y = true
+    · simp only [hl, if_true, decide_eq_true_eq]
+    · simp only [hl, decide_eq_true_eq]; rfl
+  cases ObsTime.yearLoopG e0 fuel 1970 0 with
+  | none => rfl
+  | some r =>
+    obtain ⟨y, sec⟩ := r
+    simp only [Py.bind_ok]
+    have hm : ∀ body : Int → α × Int → Py.M (Py.Ctl (α × Int) (Int × Int × Int × Int × Int × Int × Int × Int)), _ →
+      Py.forList body (Py.range 0 12) (e0 - (((sec : Nat) : Int) : α), 0) = _ :=
+        fun body h => monthLoop_tie y body h 12 0 (e0 - (((sec : Nat) : Int) : α)) (by omega) 0
+    rw [hm _ ?spec2]
+    case spec2 =>
+      intro i e m hm12
+      rw [dpm_idx0 m hm12, tie_isLeapYear]
+      rw [som_cast y m hm12]
+      by_cases h1 : m = 1
+      · subst h1
+        by_cases hl : ObsTime.isLeap y = true
+        · simp only [hl, and_self, if_true, Int.natCast_one, decide_true, Py.bind_ok, decide_eq_true_eq, Int.natCast_add]
+        · simp only [hl, and_false, if_false, Int.natCast_one, decide_true, if_true, Py.bind_ok, decide_eq_true_eq, Bool.false_eq_true, Int.natCast_add]
+      · have h1' : ¬ ((m : Int) = 1) := by omega
+        simp only [h1, h1', false_and, decide_false, Py.bind_ok, decide_eq_true_eq, Bool.false_eq_true, if_false, Int.natCast_add, Int.natCast_one]
+    simp only [Py.bind_ok, stampTuple, restG, h86400, h3600, h60, h1000]
+    rfl
+
+
+theorem yearLoopG_mono (e : α) (f g y sec : Nat) (r : Nat × Nat) (hfg : f ≤ g)
+    (h : ObsTime.yearLoopG e f y sec = some r) : ObsTime.yearLoopG e g y sec = some r := by
+  induction f generalizing g y sec with
+  | zero => exact nomatch h
+  | succ f ih =>
+    cases g with
+    | zero => omega
+    | succ g =>
+      rw [ObsTime.yearLoopG] at h ⊢
+      by_cases hc : e - (((sec : Nat) : Int) : α) < (((ObsTime.yearDays y * 86400 : Nat) : Int) : α)
+      · simp only [hc, if_true] at h ⊢; exact h
+      · simp only [hc, if_false] at h ⊢; exact ih g _ _ (by omega) h
+
+/-- **`ObsTime.readUnixTime` (float path), with the model's own fuel**: the translation of the CURRENT source, run with the fuel
+`int(e / 31536000) + 1` that `readUnixG` gives its year loop, returns the attributes of the model's stamp (zone 0), and is
+out of fuel exactly when the model's loop is (`none`). Hypotheses: the four float literals of the source are the converted
+integers (true for doubles and in every ordered field). -/
+theorem tie_readUnixTime_modelFuel (trunc : α → Int) (e0 : α)
+    (h60 : (60 : α) = ((60 : Int) : α)) (h1000 : (1000 : α) = ((1000 : Int) : α))
+    (h3600 : (3600 : α) = ((3600 : Int) : α)) (h86400 : (86400 : α) = ((86400 : Int) : α)) :
+    Gen.ObsTime.ObsTime_readUnixTime trunc ((trunc (e0 / ((31536000 : Int) : α))).toNat + 1) e0 =
+      match ObsTime.readUnixG trunc e0 with
+      | some t => .ok (stampTuple t)
+      | none => .error .fuel := by
+  rw [readUnix_core trunc e0 _ h60 h1000 h3600 h86400, readUnixG_eq]
+  cases ObsTime.yearLoopG e0 ((trunc (e0 / ((31536000 : Int) : α))).toNat + 1) 1970 0 <;> rfl
+
+/-- **`ObsTime.readUnixTime` (float path), every sufficient fuel**: whenever the model returns a stamp, the translated function
+returns its attributes for EVERY fuel at least the model's bound. -/
+theorem tie_readUnixTime (trunc : α → Int) (e0 : α) (t : ObsTime.StampZ) (fuel : Nat)
+    (h60 : (60 : α) = ((60 : Int) : α)) (h1000 : (1000 : α) = ((1000 : Int) : α))
+    (h3600 : (3600 : α) = ((3600 : Int) : α)) (h86400 : (86400 : α) = ((86400 : Int) : α))
+    (hfuel : (trunc (e0 / ((31536000 : Int) : α))).toNat + 1 ≤ fuel)
+    (hmodel : ObsTime.readUnixG trunc e0 = some t) :
+    Gen.ObsTime.ObsTime_readUnixTime trunc fuel e0 = .ok (stampTuple t) := by
+  rw [readUnixG_eq] at hmodel
+  rw [readUnix_core trunc e0 _ h60 h1000 h3600 h86400]
+  cases hy : ObsTime.yearLoopG e0 ((trunc (e0 / ((31536000 : Int) : α))).toNat + 1) 1970 0 with
+  | none => rw [hy] at hmodel; exact nomatch hmodel
+  | some r =>
+    rw [hy] at hmodel
+    rw [yearLoopG_mono e0 _ fuel 1970 0 r hfuel hy]
+    simp only [Option.some.injEq] at hmodel
+    simp only [hmodel]
+
+end
 end TV.Tie.C03
